@@ -552,12 +552,25 @@ Definition rcn_event (st : N) (id : N) : list act * N :=
   | _ => ([], st)
   end%N.
 
+(* rtrEvent: the subscriber's Terminate-Request (fsm.go at HEAD) *)
+Definition rtr_event (st : N) (id : N) : list act * N :=
+  match st with
+  | 2 | 3 | 4 | 5 => ([Sta id], st)
+  | 6 | 7 | 8 => ([Sta id], 6)
+  | 9 => ([Tld; Sta id], 5)          (* tld, zrc, timer armed, sta -> Stopping *)
+  | _ => ([], st)
+  end%N.
+
 Inductive sev :=
 | EvReq (id : N) (wire : bytes)     (* the subscriber's Configure-Request *)
 | EvAck                             (* the subscriber acknowledges our last Configure-Request verbatim *)
 | EvAckW (wire : bytes)             (* Configure-Ack with our last identifier and arbitrary contents *)
 | EvNak (wire : bytes)              (* Configure-Nak with our last identifier *)
 | EvRej (wire : bytes)              (* Configure-Reject with our last identifier *)
+| EvStale                           (* Configure-Ack/Nak/Reject whose identifier is not our last one: dropped
+                                       by rcaEvent/rcnEvent before the handler runs *)
+| EvTermReq (id : N)                (* the subscriber's Terminate-Request *)
+| EvStoppingTimeout                 (* the restart timer expires in Stopping (restart counter 0 after zrc): TO- *)
 | EvReauth (aaa : option bytes) (orc : oracle).
                                     (* LCP renegotiated, authentication repeated: extractIPFromAttributes with
                                        the new AAA answer and startNCP run again on the same session *)
@@ -577,6 +590,10 @@ Definition sess_step (fl : flags) (s : sess) (e : sev) : sess * list act :=
   | EvAckW w => sess_fsm_only fl s (ipcp_learn (s_cfg s) (parse_lenient w)) (rca_event (s_fsm s) 0)
   | EvNak w => sess_fsm_only fl s (ipcp_learn (s_cfg s) (parse_lenient w)) (rcn_event (s_fsm s) 0)
   | EvRej w => sess_fsm_only fl s (ipcp_rejected (s_cfg s) (parse_lenient w)) (rcn_event (s_fsm s) 0)
+  | EvStale => (s, [])
+  | EvTermReq id => sess_fsm_only fl s (s_cfg s) (rtr_event (s_fsm s) id)
+  | EvStoppingTimeout =>
+      sess_fsm_only fl s (s_cfg s) (if N.eqb (s_fsm s) 5 then ([], 3%N) else ([], s_fsm s))
   | EvReauth aaa orc =>
       (* the session address is kept unless AAA delivers a new one; then startNCP again *)
       let addr := match extract_ip fl aaa with Some x => Some x | None => s_addr s end in
